@@ -5,6 +5,7 @@ CONSTANTS
   NShards = 2
   Validate = FALSE
   MaxSteps = 7
+  Truncates = TRUE
 INVARIANTS Usable RoundTrip LoadTotal
-PROPERTIES CrashSafe
+PROPERTIES CrashSafe DumpRoundTrip
 CHECK_DEADLOCK FALSE
